@@ -148,8 +148,16 @@ func (d *VerifDB) touch() {
 	d.Uses++
 	if d.Closed {
 		d.UseAfterClose++
+		if VerifCrashOnUseAfterClose {
+			// RocksDB's C++ object is freed by Close: touching it afterwards crashes the process
+			panic("rocksdb model: database used after CloseDatabase")
+		}
 	}
 }
+
+// VerifCrashOnUseAfterClose makes a use of a closed database a crash (C14) instead of a counted
+// event (C06 judges those itself).
+var VerifCrashOnUseAfterClose bool
 
 func (d *VerifDB) Put(_ *rocksdb.WriteOptions, key, value []byte) error {
 	d.touch()
